@@ -28,6 +28,13 @@ func (core *JApiCore) processInclude(keyword *scanner.Lexeme) *jerr.JApiError {
 		return je
 	}
 
+	if sameFile(path, core.rootFileName()) {
+		// Every file of the project is reached from the root file, so this is a
+		// cycle. It is reported here: scanning the root file once more would only
+		// run into its JSIGHT directive.
+		return japiErrorForLexeme(keyword, jerr.RecursionIsProhibited)
+	}
+
 	file, err := readFile(path)
 	if err != nil {
 		return japiErrorForLexeme(keyword, fmt.Sprintf("%s (%s) %s", jerr.IncorrectParameter, "Filename", err))
@@ -81,6 +88,18 @@ func (core *JApiCore) getIncludedFilePath(keyword *scanner.Lexeme) (string, *jer
 		return "", incorrectParameter(keyword, path, "does not exist")
 	}
 	return "", incorrectParameter(keyword, path, err.Error())
+}
+
+// rootFileName returns the name of the file the scanning has started with.
+func (core *JApiCore) rootFileName() string {
+	if s := core.scannersStack.Bottom(); s != nil {
+		return s.File().Name()
+	}
+	return core.scanner.File().Name()
+}
+
+func sameFile(a, b string) bool {
+	return filepath.Clean(a) == filepath.Clean(b)
 }
 
 func readFile(p string) (*fs.File, error) {
